@@ -49,6 +49,8 @@ class Ctx:
                 # metrics implementations are leaf events
                 if A.metric_call(site):
                     return False
+                if (callee.j.get("impl_adt") or "") == A.receiver_adt["path"]:
+                    return False  # receive wrapper: leaf event RECV (its internals: rule Q7)
                 return True
 
             self._rg = Super(self.prog, root, max_depth=8, inline=inline)
